@@ -185,6 +185,94 @@ def P_pos(f, n):
     return p
 
 
+def nul_slot_rule(res, fx, rule='NUL-SLOT'):
+    """char buf[N];  n = Read(buf, S);  buf[n] = 0;   needs S <= N-1"""
+    res.rule(rule, 'where a gateway reads into a local array `buf[N]` and afterwards stores through a non-constant index derived from the byte count (buf[n] = 0), the requested size is clamped '
+                   '(muscleMin) by a constant <= N-1', floor=1)
+    n_site = 0
+    for f in sorted((f for f in fx.funcs.values() if f.full and f.file.startswith('iogateway/')), key=lambda f: (f.file, f.line)):
+        arrays = {}
+        for v in f.walk():
+            if v['k'] == 'VarDecl':
+                m = re.match(r'^(?:const )?(?:unsigned |signed )?char\s*\[(\d+)\]$', v.type().strip())
+                if m:
+                    arrays[v['d']] = (v, int(m.group(1)))
+        if not arrays:
+            continue
+        for d, (v, N) in sorted(arrays.items()):
+            stores = [n for n in f.walk() if n['k'] == 'BinaryOperator' and n.get('op') == '=' and A.strip_casts(n['ch'][0])['k'] == 'ArraySubscriptExpr'
+                      and A.strip_casts(A.strip_casts(n['ch'][0])['ch'][0]).get('d') == d and 'v' not in A.strip_casts(A.strip_casts(n['ch'][0])['ch'][1])
+                      and A.strip_casts(A.strip_casts(n['ch'][0])['ch'][1])['k'] == 'DeclRefExpr']
+            reads = [c for c in f.walk() if c.is_call() and re.search(r'DataIO::(Read|ReadFrom)$', c.get('q') or '') and c.args() and A.strip_casts(c.args()[0]).get('d') == d and len(c.args()) >= 2]
+            # only stores whose index is not a loop counter bounded by the count (buf[i] inside for(i<n)) — the terminator store is the one directly indexed by the count variable
+            term = []
+            for st in stores:
+                idx = A.strip_casts(A.strip_casts(st['ch'][0])['ch'][1])
+                in_for = any(a['k'] == 'ForStmt' and any(x['k'] == 'VarDecl' and x.get('d') == idx.get('d') for x in a.walk()) for a in st.ancestors())
+                if not in_for:
+                    term.append(st)
+            if not reads or not term:
+                continue
+            for rd in reads:
+                rp = P_pos(f, rd)
+                if not any(P_pos(f, st) and rp and C.can_reach(f, rp, set([P_pos(f, st)])) for st in term):
+                    continue
+                n_site += 1
+                size = rd.args()[1]
+                consts = [a.get('v') for x in size.walk() if x.is_call() and T.MIN_LIKE.search(x.get('q') or '') for a in x.args() if a.get('v') is not None]
+                if size.get('v') is not None:
+                    consts.append(size['v'])
+                bound = min(consts) if consts else None
+                ok = bound is not None and bound <= N - 1
+                res.ob(rule, f.where(rd), '%s: read into %s[%d] requests at most %s bytes, leaving the slot for the terminator' % (f.q.split('::')[-2], v.get('n'), N, bound), ok, function=f.q,
+                       key='%s|%s|%s' % (rule, f.q, v.get('n')), how='size `%s`' % size.text(60),
+                       message='%s reads up to %s bytes into `%s[%d]` and then stores a terminator at %s[count] (line %s): when one read fills the whole array the store lands one byte past it '
+                               '(stack buffer overflow by one)' % (f.q, bound if bound is not None else 'an unclamped number of', v.get('n'), N, v.get('n'), term[0].get('l')))
+    if n_site < 1:
+        raise AnalysisBroken('%s: no read-then-terminate site on a local array found' % rule)
+
+
+def borrow_scope_rule(res, fx, rule='BORROW-SCOPE'):
+    """an unflattener (or other reader object) that is pointed at the bytes of a ref-counted buffer does not outlive the local Ref that keeps the buffer alive"""
+    res.rule(rule, 'a reader that borrows the bytes of a buffer held by a local Ref (reader.SetBuffer(*ref()) / SetBuffer(ref()->GetBuffer(), ...)) is not used after that Ref is destroyed', floor=1)
+    n = 0
+    for f in sorted((f for f in fx.funcs.values() if f.full and TAINT_FILES.search(f.file)), key=lambda f: (f.file, f.line)):
+        refs = {v['d']: v for v in f.walk() if v['k'] == 'VarDecl' and re.search(r'(^|::)(Const)?(ByteBufferRef|Ref<|ConstRef<)', v.type().replace('const ', '')) and not v.type().rstrip().endswith(('&', '*'))}
+        if not refs:
+            continue
+        for c in f.walk():
+            if c['k'] != 'CXXMemberCallExpr' or not re.search(r'::SetBuffer$', c.get('q') or '') or c.receiver() is None or not c.args():
+                continue
+            rcv = A.strip_casts(c.receiver())
+            if rcv['k'] != 'DeclRefExpr' or 'd' not in rcv:
+                continue
+            used = [d for d in refs if any(x['k'] == 'DeclRefExpr' and x.get('d') == d for a in c.args() for x in a.walk())]
+            if not used:
+                continue
+            n += 1
+            R = refs[used[0]]
+            # the implicit destructor element of R
+            dpts = [(blk.b, i) for blk in f.blocks.values() for i, e in enumerate(blk.elems) if isinstance(e, tuple) and e[0] == 'D' and e[1] == R['d']]
+            cp = P_pos(f, c)
+            bad = None
+            for dp in dpts:
+                if not (cp and ((cp[0] == dp[0] and cp[1] < dp[1]) or C.can_reach(f, cp, set([dp])))):
+                    continue
+                for u in f.walk():
+                    if u['k'] == 'DeclRefExpr' and u.get('d') == rcv['d']:
+                        up = P_pos(f, u)
+                        resets = set(P_pos(f, x) for x in f.walk() if x['k'] == 'CXXMemberCallExpr' and re.search(r'::SetBuffer$', x.get('q') or '') and x is not c and x.receiver() is not None
+                                     and A.strip_casts(x.receiver()).get('d') == rcv['d'] and P_pos(f, x))
+                        if up and ((dp[0] == up[0] and dp[1] < up[1]) or (dp[0] != up[0] and C.can_reach(f, dp, set([up]), avoid_points=resets | set([cp])))):
+                            bad = u
+            res.ob(rule, f.where(c), '%s: `%s` is not used after the Ref `%s` whose buffer it reads from is destroyed' % (f.q.split('::')[-2] if '::' in f.q else f.q, rcv.get('n'), R.get('n')), bad is None,
+                   function=f.q, key='%s|%s|%s<-%s' % (rule, f.q, rcv.get('n'), R.get('n')),
+                   message='%s: `%s` is pointed at the bytes of the buffer held by `%s` (line %s), but `%s` goes out of scope before `%s` is used again (line %s): the buffer has been recycled by then and '
+                           'every chunk header and payload is read from freed memory' % (f.q, rcv.get('n'), R.get('n'), c.get('l'), R.get('n'), rcv.get('n'), bad.get('l') if bad is not None else ''))
+    if n < 1:
+        raise AnalysisBroken('%s: no reader.SetBuffer(<local Ref>) site found' % rule)
+
+
 def dest_capacity_rule(res, fx, eng, rule='DEST-CAPACITY'):
     """memcpy/memmove of a wire-derived number of bytes INTO a ByteBuffer (dest = B.GetBuffer() [+ off]): besides the source-side bound that TAINT demands, the length
     (together with the offset) must be bounded by the capacity of that very buffer: a dominating comparison whose bound side is B.GetNumBytes() (or a local holding it)."""
@@ -304,6 +392,8 @@ def run(res, tier):
     eng = taint_rule(res, fx)
     dest_capacity_rule(res, fx, eng)
     cursor_bound_rule(res, fx, eng)
+    nul_slot_rule(res, fx)
+    borrow_scope_rule(res, fx)
     primitive_rule(res, fx)
     entries = []
     missing = []
